@@ -12,7 +12,9 @@ use std::collections::HashMap;
 use std::str::FromStr;
 
 /// Debian order, hard-coded as the reference (independent of the debversion crate).
-pub const POOL: [&str; 10] = ["0.9", "1.0~rc1", "1.0", "1.0-1", "1.0-1+b1", "1.0-1.1", "1.0+dfsg-1", "1.1", "1:0.5", "2:0~a"];
+pub const POOL: [&str; 12] = ["0.9", "1.0~rc1", "1.0", "1.0-1", "1.0-1+b1", "1.0-1.1", "1.0+dfsg-1", "0:1.0", "0:1.0-1", "1.1", "1:0.5", "2:0~a"];
+/// Debian rank of each pool entry: an explicit zero epoch ("0:1.0") is the same version as "1.0"
+pub const RANK: [u32; 12] = [0, 1, 2, 3, 4, 5, 6, 2, 3, 7, 8, 9];
 pub const OPS12: [&str; 6] = ["", "<<", "<=", "=", ">=", ">>"];
 
 #[derive(Clone, Serialize, Deserialize, PartialEq, Debug)]
@@ -29,21 +31,24 @@ pub enum C12Case {
 pub struct C12;
 
 fn pool(t: Tier) -> usize {
-    t.pick(7, POOL.len())
+    t.pick(9, POOL.len())
 }
 
 fn reference_cell(op: usize, req: usize, inst: Option<usize>) -> bool {
     match inst {
         None => false,
-        Some(i) => match OPS12[op] {
-            "" => true,
-            "<<" => i < req,
-            "<=" => i <= req,
-            "=" => i == req,
-            ">=" => i >= req,
-            ">>" => i > req,
-            _ => unreachable!(),
-        },
+        Some(i) => {
+            let (i, req) = (RANK[i], RANK[req]);
+            match OPS12[op] {
+                "" => true,
+                "<<" => i < req,
+                "<=" => i <= req,
+                "=" => i == req,
+                ">=" => i >= req,
+                ">>" => i > req,
+                _ => unreachable!(),
+            }
+        }
     }
 }
 
@@ -172,7 +177,7 @@ impl Prop for C12 {
         "exploration"
     }
     fn rule(&self, _t: Tier) -> String {
-        "(1) the complete single-relation table: {unversioned, <<, <=, =, >=, >>} x required version x installed version (or absent) over a version pool whose Debian order is hard-coded in the harness (epochs, revisions, '~', '+'), evaluated by the lossless Relations/Entry evaluators and the lossy Relations/Relation evaluators through every lookup form that type-checks (closure, HashMap, (name, version) pair); (2) every AND/OR shape: all fields of <= 3 entries x 1..3 alternatives (thorough 4 x 1..3) where each alternative is satisfied / version-mismatched / absent, plus the empty field; (3) every entry of 1-3 alternatives that all name the SAME package (6 operators x 3 required versions each) x 5 installed states, followed by a second satisfied entry; all cases distinct; non-trivial = every case except the empty field".into()
+        "(1) the complete single-relation table: {unversioned, <<, <=, =, >=, >>} x required version x installed version (or absent) over a version pool whose Debian order is hard-coded in the harness (epochs incl. an explicit zero epoch that equals no epoch, revisions, '~', '+'), evaluated by the lossless Relations/Entry evaluators and the lossy Relations/Relation evaluators through every lookup form that type-checks (closure, HashMap, (name, version) pair); (2) every AND/OR shape: all fields of <= 3 entries x 1..3 alternatives (thorough 4 x 1..3) where each alternative is satisfied / version-mismatched / absent, plus the empty field; (3) every entry of 1-3 alternatives that all name the SAME package (6 operators x 3 required versions each) x 5 installed states, followed by a second satisfied entry; all cases distinct; non-trivial = every case except the empty field".into()
     }
     fn bounds(&self, t: Tier) -> Value {
         json!({"version_pool": &POOL[..pool(t)], "cells": 6 * pool(t) * (pool(t) + 1), "max_entries": t.pick(3, 4), "max_alternatives": 3})
